@@ -11,8 +11,11 @@ Model of the RESULTS LAYER of metric queries (C09), mirroring
 
 Strings are Go byte strings: `Str = List Nat` (bytes).  The series id of a time series is
     <metric> "{" k1 ":" v1 "," k2 ":" v2 "," …          (every label followed by a comma, no closing brace)
-and the group key of an aggregation is computed FROM THAT STRING by substring search (`strings.Index`,
-`strings.Split`) — the model does exactly the same, quirks included.
+and the group key of an aggregation is computed FROM THAT STRING (`strings.Index`, `strings.Split`,
+`strings.SplitN`) — the model does exactly the same, quirks included.  As of the fix for C09
+(label-name-is-suffix-of-another / metric-name-contains-colon) `ExtractGroupByFieldsFromSeriesId` looks
+only at the part after the first "{", splits it on "," and compares the text before the first ":" of a
+part with the field for EQUALITY; and computeAggCount groups when `Without` is set (count-without-empty-list).
 Sample values are integers (the correspondence run uses integer-valued float64 with |sums| < 2^53, so the
 Go float arithmetic is exact); `avg` is the exact quotient, `f64div` is the correctly rounded float64
 quotient the Oracle prints for it.  Core Lean only.
@@ -39,19 +42,6 @@ def seriesIdOf (name : Str) (labels : Labels) : Str := name ++ cBrace :: labels.
 
 /-! ### string primitives -/
 
-/-- `strings.HasPrefix` + remainder -/
-def stripPrefix : Str → Str → Option Str
-  | [], s => some s
-  | _ :: _, [] => none
-  | p :: ps, c :: s => if p = c then stripPrefix ps s else none
-
-/-- `s[strings.Index(s, pat)+len(pat):]`, `none` when `strings.Index` returns -1 -/
-def afterFirst (pat : Str) : Str → Option Str
-  | [] => stripPrefix pat []
-  | c :: s => match stripPrefix pat (c :: s) with
-    | some r => some r
-    | none => afterFirst pat s
-
 /-- `strings.Split(s, string(c))` (always at least one part) -/
 def splitOn (c : Nat) : Str → List Str
   | [] => [[]]
@@ -74,10 +64,20 @@ def joinWith (c : Nat) : List Str → Str
 
 /-! ### group keys -/
 
-/-- ExtractGroupByFieldsFromSeriesId, one field: `start = Index(sid, field+":") + len(field)+1`,
-`end = Index(sid[start:], ",")` or len; the value is `sid[start:end]`. FIRST occurrence ANYWHERE. -/
+/-- the tags of an id: everything after the first "{" (the whole id when there is none) -/
+def labelPart (sid : Str) : Str :=
+  match splitFirst cBrace sid with
+  | some (_, r) => r
+  | none => sid
+
+/-- ExtractGroupByFieldsFromSeriesId, one field: the comma-parts of the tags are scanned in order; the
+first part that has a ':' and whose text before its first ':' EQUALS the field gives the value (the
+rest of the part). -/
 def fieldValue (field sid : Str) : Option Str :=
-  (afterFirst (field ++ [cColon]) sid).map (fun r => r.takeWhile (· != cComma))
+  (splitOn cComma (labelPart sid)).findSome? (fun part =>
+    match splitFirst cColon part with
+    | some (k, v) => if k = field then some v else none
+    | none => none)
 
 /-- the `field:value` strings of the fields that were found, in `groupByFields` order -/
 def extractPairs (fields : List Str) (sid : Str) : List Str :=
@@ -128,19 +128,19 @@ def render (without : Bool) (name : Str) (key : Labels) : Str :=
 /-! ### the guard under which the string-derived key IS the PromQL key -/
 
 def isSep (c : Nat) : Bool := c == cComma || c == cColon || c == cBrace
-/-- no ',' ':' '{' inside -/
+/-- no ',' ':' '{' inside (label names) -/
 def clean (s : Str) : Bool := s.all (fun c => !isSep c)
+/-- no ',' '{' inside (metric names and label values; ':' is harmless there) -/
+def cleanV (s : Str) : Bool := s.all (fun c => !(c == cComma || c == cBrace))
 
-/-- metric name, label names, label values and grouping fields contain no separator byte; label names are
-unique; and no grouping field is a PROPER suffix of a label name of the series -/
-def labelSafe (name : Str) (labels : Labels) (fields : List Str) : Bool :=
-  clean name && labels.all (fun kv => clean kv.1 && clean kv.2) && fields.all clean
-  && decide ((labels.map (·.1)).Nodup)
-  && fields.all (fun f => labels.all (fun kv => !(f.isSuffixOf kv.1) || f == kv.1))
+/-- the metric name and the label values contain neither ',' nor '{', the label names contain none of
+',' ':' '{'.  Nothing is demanded of the grouping fields or of how label names relate to each other. -/
+def labelSafe (name : Str) (labels : Labels) : Bool :=
+  cleanV name && labels.all (fun kv => clean kv.1 && cleanV kv.2)
 
-def LabelSafe (name : Str) (labels : Labels) (fields : List Str) : Prop := labelSafe name labels fields = true
+def LabelSafe (name : Str) (labels : Labels) : Prop := labelSafe name labels = true
 
-instance (name : Str) (labels : Labels) (fields : List Str) : Decidable (LabelSafe name labels fields) := by
+instance (name : Str) (labels : Labels) : Decidable (LabelSafe name labels) := by
   unfold LabelSafe; infer_instance
 
 /-! ### downsampling -/
@@ -213,10 +213,10 @@ deriving Repr
 def sidOf (q : Query) (s : Series) : Str := seriesIdOf q.name s.labels
 
 /-- the key under which a series' entries end up in `r.Results`.
-`count` with NO grouping fields puts everything under `MetricName + "{"` (computeAggCount's else branch,
-also when `without` is set). -/
+`count` with NO grouping fields and no `without` puts everything under `MetricName + "{"`
+(computeAggCount's else branch). -/
 def groupOf (q : Query) (sid : Str) : Str :=
-  if q.fn = .count ∧ q.fields = [] then q.name ++ [cBrace]
+  if q.fn = .count ∧ q.fields = [] ∧ q.without = false then q.name ++ [cBrace]
   else extractGroupKey q.fields q.without sid
 
 /-- all running entries (tagged with the series id they came from) of group `g` at bucket `t` -/
@@ -238,13 +238,13 @@ def reduceRunning : Fn → List Entry → Rat
   | .count, _ => 0
 
 /-- value of group `g` at bucket `t`; `none` = no such (group, timestamp) in the result.
-count: with grouping fields every entry is counted (`grpID-i` ids); without fields
+count: with grouping fields or `without` every entry is counted (`grpID-i` ids); otherwise
 `timestampToCount[ts]++` runs once per DISTINCT series id. -/
 def aggAt (q : Query) (ss : List Series) (g : Str) (t : Nat) : Option Rat :=
   let es := entriesAt q ss g t
   if es.isEmpty then none
   else some (match q.fn with
-    | .count => if q.fields = [] then ((dedup (es.map (·.1))).length : Rat) else (es.length : Rat)
+    | .count => if q.fields = [] ∧ q.without = false then ((dedup (es.map (·.1))).length : Rat) else (es.length : Rat)
     | fn => reduceRunning fn (es.map (·.2)))
 
 /-- the (group, timestamp) pairs present in the result -/
@@ -260,7 +260,7 @@ Every (key, timestamp, value) of the first result becomes one RunningEntry with 
 `getAggSeriesId(key)`; `count` goes through computeAggCount again (one entry per first-stage key). -/
 
 def group2 (q : Query) (g1 : Str) : Str :=
-  if q.fn = .count ∧ q.fields = [] then q.name ++ [cBrace]
+  if q.fn = .count ∧ q.fields = [] ∧ q.without = false then q.name ++ [cBrace]
   else extractGroupKey q.fields q.without g1
 
 def ratSum : List Rat → Rat
